@@ -10,8 +10,9 @@ Request (one per line)                     Reply
   setexpr <key> <expr>                     ok
   setnum <key> <number>                    ok
   clearparams                              ok
-  install <f> | uninstall <f>              ok
-  ginstall <f> | guninstall <f>            ok        -- process-wide function table
+  install <f> <impl> | uninstall <f>       ok        -- <impl> names the implementation; a re-install replaces
+  transformfl <sheetslot> <srcslot> <seed> (as transform; result delivered to a FormatterListener supplied by the caller)
+  ginstall <f> <impl> | guninstall <f>     ok        -- process-wide function table
   setobj <key> B:true|S:text               ok        -- XObject parameter
   setnode <key> <src>                      ok        -- node-set parameter (document node of <src>)
   config <name> <value>                    ok        -- sticky option (indent, enc, escurl, omitmeta, plistener, tlistener)
@@ -79,8 +80,8 @@ def postSizes (before after : State) : String :=
 def showObs (o : Obs) (sp : SpecParams) (post : String) : String :=
   let ps := sortStrings (o.params.map fun (k, v) => k ++ "=" ++ showPVal v)
   let ss := sortStrings (sp.map fun (k, v) => k ++ "=" ++ showPVal v)
-  let fs := sortStrings o.funcs
-  let gs := sortStrings o.gfuncs
+  let fs := sortStrings (o.funcs.map fun (k, v) => k ++ ":" ++ v)
+  let gs := sortStrings (o.gfuncs.map fun (k, v) => k ++ ":" ++ v)
   let cs := sortStrings (o.config.map fun (k, v) => k ++ "=" ++ v)
   let j (l : List String) := if l.isEmpty then "-" else ";".intercalate l
   s!"T sheet={o.sheet.getD "-"} src={o.source.getD "-"} P={j ps} S={j ss} F={j fs} G={j gs} C={j cs} pre={"".intercalate (o.pre.map showVal)} post={post}"
@@ -106,10 +107,10 @@ def stepTx (sp : SpecParams) (t : Tx) : List String → Tx × String
   | ["clearparams"] => reply sp t (fun _ => .ptr 0) (step t .clearParams)
   | ["setobj", k, v] => reply sp t (fun _ => .ptr 0) (step t (.setParamNum k v))
   | ["setnode", k, v] => reply sp t (fun _ => .ptr 0) (step t (.setParamNum k ("D:" ++ v)))
-  | ["ginstall", f] => reply sp t (fun _ => .ptr 0) (step t (.ginstall f))
+  | ["ginstall", f, i] => reply sp t (fun _ => .ptr 0) (step t (.ginstall f i))
   | ["guninstall", f] => reply sp t (fun _ => .ptr 0) (step t (.guninstall f))
   | ["config", n, v] => reply sp t (fun _ => .ptr 0) (step t (.config n v))
-  | ["install", f] => reply sp t (fun _ => .ptr 0) (step t (.install f))
+  | ["install", f, i] => reply sp t (fun _ => .ptr 0) (step t (.install f i))
   | ["uninstall", f] => reply sp t (fun _ => .ptr 0) (step t (.uninstall f))
   | ["dsheet", slot] =>
     match slot.toNat? with
@@ -120,6 +121,10 @@ def stepTx (sp : SpecParams) (t : Tx) : List String → Tx × String
     | some n => reply sp t (fun _ => .ptr 0) (step t (.destroySource n))
     | none => (t, "bad-op")
   | ["transform", a, b, seed] =>
+    match a.toNat?, b.toNat?, seed.toNat? with
+    | some a, some b, some sd => let mid := midOf sd; reply sp t mid (step t (.transform a b mid))
+    | _, _, _ => (t, "bad-op")
+  | ["transformfl", a, b, seed] =>     -- same model step; the real call delivers to a caller-supplied FormatterListener
     match a.toNat?, b.toNat?, seed.toNat? with
     | some a, some b, some sd => let mid := midOf sd; reply sp t mid (step t (.transform a b mid))
     | _, _, _ => (t, "bad-op")
